@@ -812,3 +812,123 @@ func RunMarshalRecursion(c *Ctx, pkgs []string) {
 		c.R.Fail("vacuity", "-", "E4.R-recursion", "no codec methods found")
 	}
 }
+
+// RunN3: belief contradiction (Engler et al.): a pointer that some code treats as possibly nil - the function itself
+// compares it with nil, or hands it to an in-module callee whose body nil-tests that parameter - must not be
+// dereferenced in the same function outside a nil guard.
+func RunN3(c *Ctx, pkgs []string) {
+	in := map[string]bool{}
+	for _, p := range pkgs {
+		in[p] = true
+	}
+	type pk struct {
+		fn  *types.Func
+		idx int
+	}
+	nilTested := map[pk]bool{}
+	for _, fi := range c.P.Funcs {
+		if fi.Body == nil || fi.Obj == nil || fi.Sig == nil {
+			continue
+		}
+		info := fi.Pkg.TypesInfo
+		for i := 0; i < fi.Sig.Params().Len(); i++ {
+			p := fi.Sig.Params().At(i)
+			if _, isPtr := p.Type().Underlying().(*types.Pointer); !isPtr {
+				continue
+			}
+			ast.Inspect(fi.Body, func(n ast.Node) bool {
+				if be, ok := n.(*ast.BinaryExpr); ok && (be.Op == token.EQL || be.Op == token.NEQ) {
+					var other ast.Expr
+					if isNilIdent(info, be.Y) {
+						other = be.X
+					} else if isNilIdent(info, be.X) {
+						other = be.Y
+					}
+					if id, ok := unparen(other).(*ast.Ident); other != nil && ok && info.Uses[id] == p {
+						nilTested[pk{fi.Obj, i}] = true
+					}
+				}
+				return true
+			})
+		}
+	}
+	n := 0
+	for _, fi := range c.P.Funcs {
+		if fi.Body == nil || fi.Lit != nil || (!in[shortPkg(fi.Pkg.PkgPath)] && !fi.Ctl) {
+			continue
+		}
+		info := fi.Pkg.TypesInfo
+		// candidate variables: pointer-typed params/locals that are nil-tested here or passed to a nil-testing callee
+		believedNil := map[types.Object]string{}
+		ast.Inspect(fi.Body, func(nd ast.Node) bool {
+			switch x := nd.(type) {
+			case *ast.BinaryExpr:
+				if x.Op == token.EQL || x.Op == token.NEQ {
+					var other ast.Expr
+					if isNilIdent(info, x.Y) {
+						other = x.X
+					} else if isNilIdent(info, x.X) {
+						other = x.Y
+					}
+					if id, ok := unparen(other).(*ast.Ident); other != nil && ok {
+						if v, ok := info.Uses[id].(*types.Var); ok {
+							if _, isPtr := v.Type().Underlying().(*types.Pointer); isPtr {
+								if _, have := believedNil[v]; !have {
+									believedNil[v] = "compared with nil at " + c.P.Position(x.Pos())
+								}
+							}
+						}
+					}
+				}
+			case *ast.CallExpr:
+				fn, _ := typeutil.Callee(info, x).(*types.Func)
+				if fn == nil {
+					return true
+				}
+				for i, a := range x.Args {
+					if !nilTested[pk{fn.Origin(), i}] {
+						continue
+					}
+					if id, ok := unparen(a).(*ast.Ident); ok {
+						if v, ok := info.Uses[id].(*types.Var); ok {
+							if _, have := believedNil[v]; !have {
+								believedNil[v] = "passed to " + FuncName(fn) + ", which nil-tests that parameter"
+							}
+						}
+					}
+				}
+			}
+			return true
+		})
+		if len(believedNil) == 0 {
+			continue
+		}
+		pm := buildParents(fi.Body)
+		for v, why := range believedNil {
+			// freshly allocated locals (x := &T{} / new(T)) compared with nil later are not interesting
+			var bad ast.Node
+			for _, use := range derefUses(fi, pm, v, token.NoPos, "pointer") {
+				if _, isCall := use.(*ast.CallExpr); isCall {
+					continue
+				}
+				if sel, ok := use.(*ast.SelectorExpr); ok {
+					// method values on nil-safe receivers are fine: only field selections dereference for sure
+					if s, ok := info.Selections[sel]; ok && s.Kind() != types.FieldVal {
+						continue
+					}
+				}
+				if !nilGuarded(info, pm, use, v) {
+					bad = use
+					break
+				}
+			}
+			n++
+			c.R.Obl(Obligation{Rule: "E3.N3", Func: fi.Name, Construct: "pointer " + v.Name() + " (" + why[:min(len(why), 40)] + ")", Pos: c.P.Position(v.Pos()), Discharged: bad == nil, Nontrivial: true, Ctl: fi.Ctl})
+			if bad != nil {
+				c.R.Find(Finding{Rule: "E3.N3", Func: fi.Name, Construct: "unguarded dereference of possibly-nil " + v.Name(), Pos: c.P.Position(bad.Pos()),
+					Msg: fmt.Sprintf("%s is treated as possibly nil (%s) but `%s` dereferences it outside any nil guard", v.Name(), why, exprOrNode(bad)), Ctl: fi.Ctl})
+			}
+		}
+	}
+	c.R.Extra["belief_candidates"] = n
+}
